@@ -7,9 +7,9 @@ BUILT = {
  "C01": ("property-based testing against an analytic reference: multi-tone inputs, least-squares fit at the known output frequencies, single fitted delay",
          "Generated sinc and FFT configurations (windows, lengths 64..512, interpolation types, oversampling 1..2048 with extreme values forced, cutoffs, ratios, rate pairs, chunk sizes, variants, kernels, f32/f64) and 1-4 tones below the passband edge; after the transient 4000 output frames are fitted: per-tone gain, RMS of everything that is not a predicted tone, and the residual against the input delayed by one fitted delay are bounded by the statement's figures (near-edge images: by the C02 figure, see known finding D11). Exploration level.",
          "numeric thresholds are those written in the statement; zone boundary D_FAR calibrated at design time; f32 floors at least 64 eps"),
- "C02": ("property-based testing against an analytic reference: stopband tones, per-line least-squares measurement of the tone and its predicted images; exhaustive table check of calculate_cutoff",
-         "Generated configurations and one tone between the stopband edge and the input Nyquist (down- and up-sampling, FFT down-sampling): every predicted output line and the remainder must be below the stated rejection (3 dB stated measurement tolerance; FFT 100 dB); the -6.02 dB point at f_cutoff; calculate_cutoff on all 12 102 (length, window) pairs (exhaustive). Exploration level.",
-         "guard band of 0.25 transition half-widths above the fitted edge; interpolation term made negligible by construction"),
+ "C02": ("property-based testing against an analytic reference: stopband tones, per-line least-squares measurement of the tone and its predicted images; exact frequency response (DTFT) of the filter table read through the public kernel and of the impulse response of the whole stream at generated rational ratios; exhaustive table check of calculate_cutoff",
+         "Generated configurations and one tone between the stopband edge and the input Nyquist (down- and up-sampling, FFT down-sampling): every predicted output line and the remainder must be below the stated rejection (3 dB stated measurement tolerance; FFT 100 dB); the -6.02 dB point at f_cutoff; the exact response of the filter table and of the stream's impulse response (ratios k/q) against the stated figure itself from the stated edge on; calculate_cutoff on all 12 102 (length, window) pairs (exhaustive). Exploration level.",
+         "tone measurement: guard band of 0.10 transition half-widths above the fitted edge, interpolation term made negligible by construction; configurations whose pass band is narrower than 0.55 transition half-widths are excluded and counted (known finding D17)"),
  "C03": ("stateful property-based testing (proptest call histories, crash-isolating worker subprocess, probing interpolator, shrinking) + coverage-guided fuzzing (libFuzzer/ASan target hist) in the thorough tier",
          "Generated call histories over all seven types x {f32,f64} executed against the real resampler in a worker process built with debug assertions and overflow checks: an abort, panic, Err or an out-of-range request seen by the probing interpolator is a violation. Exploration only: holds on the histories generated, no absence proof.",
          "std unsafe-precondition checks and overflow checks turn UB into aborts; the harness position model (validated against the implementation on every call) defines the benign envelope for fixed-input ratio changes; NEON unreachable on this host"),
@@ -40,7 +40,7 @@ BUILT = {
  "C12": ("property-based testing of the setters against a reference predicate, boundary/ulp-neighbour generators, differential twin",
          "Generated (original, max) pairs and control calls with arguments at the documented bounds, their ulp neighbours, interior/far/special values through both ratio setters, and boundary chunk sizes; accept/reject is compared with the documented predicate evaluated in f64, rejected calls must leave the instance indistinguishable from a twin, accepted relative calls must equal the accepted absolute call. Exploration level.",
          "the documented bounds are original/max, original*max (1/max, max for the relative setter) as a caller computes them in f64"),
- "C13": ("property-based fault injection into call histories (one or two malformed arguments), differential twin for state preservation",
+ "C13": ("property-based fault injection into call histories (one or two malformed arguments), differential twin for state preservation; coverage-guided fuzzing (libFuzzer/ASan target faults) in the thorough tier",
          "A valid generated prefix, one malformed call (channel counts, short buffers, mask length) through process_into_buffer / process / process_partial_into_buffer, then a suffix compared bit-for-bit with a twin that never saw the malformed call; expected variant and fields computed by the harness; all seven constructors with each invalid argument class. Exploration level.",
          "multi-fault calls may return any matching error; NaN ratios not asserted; input-shape faults through process_partial_into_buffer not asserted (documented padding)"),
  "C14": ("property-based testing against an analytic reference: centroid of a generated band-limited event vs n*ratio + output_delay(), README recipe executed literally",
